@@ -28,11 +28,6 @@ Proof.
   unfold cert_id. cbn. repeat f_equal; auto; now apply Z.eqb_eq.
 Qed.
 
-Lemma cert_id_eq : forall a b, cert_id a = cert_id b -> c_expires a = c_expires b -> a = b.
-Proof.
-  intros [kt k x e] [kt' k' x' e'] H E. unfold cert_id in H. cbn in *. congruence.
-Qed.
-
 Lemma same_cert_refl : forall a, comparable a = true -> same_cert a a = true.
 Proof.
   intros [kt k x e] H. unfold same_cert. cbn in *. rewrite H, !Z.eqb_refl. now destruct kt.
@@ -52,20 +47,6 @@ Proof.
   unfold list_cert_same. induction a as [|x xs IH]; intros [|y ys] H; cbn in *; try discriminate; auto.
   apply andb_true_iff in H as [H1 H2]. apply andb_true_iff in H2 as [H2 H3].
   apply same_cert_id in H2. rewrite H2. f_equal. apply IH. now rewrite H1, H3.
-Qed.
-
-(* with the expiry agreeing wherever the x509 identity does, the same list *)
-Lemma list_cert_same_eq : forall a b,
-  list_cert_same a b = true -> expiry_agrees a b = true -> a = b.
-Proof.
-  unfold list_cert_same, expiry_agrees.
-  induction a as [|x xs IH]; intros [|y ys] H G; cbn in *; try discriminate; auto.
-  apply andb_true_iff in H as [H1 H2]. apply andb_true_iff in H2 as [H2 H3].
-  apply andb_true_iff in G as [G1 G2].
-  apply same_cert_id in H2.
-  assert (X : c_x509 x = c_x509 y) by (unfold cert_id in H2; congruence).
-  rewrite X, Z.eqb_refl in G1. cbn in G1. apply Z.eqb_eq in G1.
-  rewrite (cert_id_eq x y H2 G1). f_equal. apply IH; auto. now rewrite H1, H3.
 Qed.
 
 Lemma list_cert_same_refl : forall a, forallb comparable a = true -> list_cert_same a a = true.
@@ -97,41 +78,16 @@ Proof.
   apply String.eqb_eq in B. rewrite B. now rewrite with_identity_id.
 Qed.
 
-(* the certificate block rejects a change -- and otherwise STORES THE ARGUMENT *)
+(* the certificate block only compares: reject, or go on with nothing assigned *)
 Lemma sc_certs_spec : forall c new,
-  sc_certs c new = if changes_certs c new then (c, Err E_modification) else (adopt_certs c new, Ok tt).
+  sc_certs c new = if changes_certs c new then (c, Err E_modification) else (c, Ok tt).
 Proof.
-  intros c new. unfold sc_certs, sc_certs_by, changes_certs, adopt_certs. fold certs_equal.
+  intros c new. unfold sc_certs, sc_certs_by, changes_certs. fold certs_equal.
   destruct (certs new) as [|n ns] eqn:N; auto.
   unfold list_cert_same. rewrite (Nat.eqb_sym (List.length (n :: ns))).
   destruct (Nat.eqb (List.length (certs c)) (List.length (n :: ns))) eqn:L; cbn [negb andb]; auto.
   apply Nat.eqb_eq in L. rewrite (certs_equal_spec _ _ L).
   destruct (forallb (fun p => same_cert (fst p) (snd p)) (combine (certs c) (n :: ns))) eqn:F; cbn [negb]; auto.
-Qed.
-
-Lemma adopt_certs_id : forall cur new,
-  changes_certs cur new = false -> expiry_agrees (certs cur) (certs new) = true ->
-  adopt_certs cur new = cur.
-Proof.
-  intros cur new C G. unfold adopt_certs, changes_certs in *.
-  destruct (certs new) as [|n ns] eqn:N; auto.
-  apply negb_false_iff in C. rewrite <- (list_cert_same_eq _ _ C G). apply with_certs_id.
-Qed.
-
-(* whatever the expiries, the adopted list has the stored identities *)
-Lemma adopt_certs_ids : forall cur new,
-  changes_certs cur new = false ->
-  map cert_id (certs (adopt_certs cur new)) = map cert_id (certs cur).
-Proof.
-  intros cur new C. unfold adopt_certs, changes_certs in *.
-  destruct (certs new) as [|n ns] eqn:N; auto.
-  apply negb_false_iff in C. cbn [certs with_certs]. symmetry. exact (list_cert_same_ids _ _ C).
-Qed.
-
-Lemma adopt_certs_rest : forall cur new,
-  with_certs (adopt_certs cur new) (certs cur) = cur.
-Proof.
-  intros cur new. unfold adopt_certs. destruct (certs new); destruct cur; reflexivity.
 Qed.
 
 Lemma sc_bundle_spec : forall c new,
@@ -162,61 +118,8 @@ Qed.
 Definition mutable_tail (cur new : config) : config :=
   with_tail cur (policy new) (if always_dc new then true else always_dc cur) (servers new).
 
-Definition changes_late (hl : bool) (cur new : config) : bool :=
-  changes_bundle cur new || changes_rtcpmux cur new || changes_pool hl cur new.
-
-Lemma changes_immutable_split : forall hl cur new,
-  changes_immutable hl cur new =
-  changes_identity cur new || changes_certs cur new || changes_late hl cur new.
-Proof.
-  intros. unfold changes_immutable, changes_late.
-  destruct (changes_identity cur new), (changes_certs cur new), (changes_bundle cur new),
-    (changes_rtcpmux cur new); reflexivity.
-Qed.
-
-Lemma adopt_fields : forall cur new,
-  bundle (adopt_certs cur new) = bundle cur /\ rtcpmux (adopt_certs cur new) = rtcpmux cur /\
-  pool (adopt_certs cur new) = pool cur /\ identity (adopt_certs cur new) = identity cur /\
-  semantics (adopt_certs cur new) = semantics cur.
-Proof. intros cur new. unfold adopt_certs. destruct (certs new); cbn; auto. Qed.
-
-Lemma changes_late_adopt : forall hl cur new,
-  changes_late hl (adopt_certs cur new) new = changes_late hl cur new.
-Proof.
-  intros hl cur new. destruct (adopt_fields cur new) as (B & R & P & _).
-  unfold changes_late, changes_bundle, changes_rtcpmux, changes_pool. now rewrite B, R, P.
-Qed.
-
-(* the whole function in one equation.  Identity and certificate changes are
-   rejected with nothing stored; past the certificate block the stored
-   certificate list IS THE ARGUMENT'S (adopt_certs), also when a later block
-   rejects the call *)
+(* the whole function in one equation *)
 Lemma set_configuration_spec : forall closed hl cur new,
-  set_configuration closed hl cur new =
-  if closed then (cur, Err E_state)
-  else if changes_identity cur new || changes_certs cur new then (cur, Err E_modification)
-  else if changes_late hl cur new then (adopt_certs cur new, Err E_modification)
-  else match validate_all (servers new) with
-       | Ok _ => (mutable_tail (adopt_certs cur new) new, Ok tt)
-       | Err e => (adopt_certs cur new, Err e)
-       | Panic => (adopt_certs cur new, Panic)
-       end.
-Proof.
-  intros closed hl cur new. unfold set_configuration.
-  destruct closed; auto.
-  rewrite sc_identity_spec. destruct (changes_identity cur new); cbn [and_then orb]; auto.
-  rewrite sc_certs_spec. destruct (changes_certs cur new); cbn [and_then orb]; auto.
-  rewrite <- (changes_late_adopt hl cur new). unfold changes_late.
-  set (c2 := adopt_certs cur new).
-  rewrite sc_bundle_spec. destruct (changes_bundle c2 new); cbn [and_then orb]; auto.
-  rewrite sc_rtcpmux_spec. destruct (changes_rtcpmux c2 new); cbn [and_then orb]; auto.
-  rewrite sc_pool_spec. destruct (changes_pool hl c2 new); cbn [and_then orb]; auto.
-Qed.
-
-(* where the named certificates report the stored expiries: the equation one
-   would expect -- reject, or assign only the mutable tail *)
-Lemma set_configuration_spec_agreeing : forall closed hl cur new,
-  expiry_agrees (certs cur) (certs new) = true ->
   set_configuration closed hl cur new =
   if closed then (cur, Err E_state)
   else if changes_immutable hl cur new then (cur, Err E_modification)
@@ -226,11 +129,13 @@ Lemma set_configuration_spec_agreeing : forall closed hl cur new,
        | Panic => (cur, Panic)
        end.
 Proof.
-  intros closed hl cur new G. rewrite set_configuration_spec, changes_immutable_split.
+  intros closed hl cur new. unfold set_configuration, changes_immutable.
   destruct closed; auto.
-  destruct (changes_identity cur new); cbn [orb]; auto.
-  destruct (changes_certs cur new) eqn:C; cbn [orb]; auto.
-  now rewrite (adopt_certs_id cur new C G).
+  rewrite sc_identity_spec. destruct (changes_identity cur new); cbn [and_then orb]; auto.
+  rewrite sc_certs_spec. destruct (changes_certs cur new); cbn [and_then orb]; auto.
+  rewrite sc_bundle_spec. destruct (changes_bundle cur new); cbn [and_then orb]; auto.
+  rewrite sc_rtcpmux_spec. destruct (changes_rtcpmux cur new); cbn [and_then orb]; auto.
+  rewrite sc_pool_spec. destruct (changes_pool hl cur new); cbn [and_then orb]; auto.
 Qed.
 
 Lemma validate_all_spec : forall l,
@@ -241,59 +146,12 @@ Proof.
 Qed.
 
 (* ---------- the clauses of the property ---------- *)
-(* FULL STATEMENT (C39: "a rejected call leaves GetConfiguration exactly as it
-   was") -- false for the code, see reject_unchanged_refuted *)
-Definition reject_unchanged_statement : Prop := forall closed hl cur new c' r,
+Lemma reject_unchanged : forall closed hl cur new c' r,
   set_configuration closed hl cur new = (c', r) -> r <> Ok tt -> c' = cur.
-
-Definition wit_cert (e : Z) : cert := {| c_ktype := KEcdsa; c_key := 0; c_x509 := 0; c_expires := e |}.
-Definition wit_cur : config :=
-  {| servers := []; policy := 0; bundle := 2; rtcpmux := 1; identity := ""; certs := [wit_cert 2000];
-     pool := 0; semantics := 0; always_dc := false |}.
-(* the stored certificate named through another object whose NotAfter field
-   reads 1000, together with another bundle policy *)
-Definition wit_new : config :=
-  {| servers := []; policy := 0; bundle := 3; rtcpmux := 0; identity := ""; certs := [wit_cert 1000];
-     pool := 0; semantics := 0; always_dc := false |}.
-
-Lemma reject_unchanged_refuted : exists closed hl cur new c' r,
-  set_configuration closed hl cur new = (c', r) /\ r <> Ok tt /\ c' <> cur /\
-  (* ... by a caller whose certificate is the stored one for Equals *)
-  changes_certs cur new = false /\
-  (* ... the stored certificate now reports another expiry *)
-  map c_expires (certs c') <> map c_expires (certs cur).
-Proof.
-  exists false, false, wit_cur, wit_new, (with_certs wit_cur [wit_cert 1000]), (Err E_modification).
-  repeat split; try reflexivity; try discriminate; try (vm_compute; discriminate).
-Qed.
-
-Lemma reject_unchanged_partial : forall closed hl cur new c' r,
-  expiry_agrees (certs cur) (certs new) = true ->
-  set_configuration closed hl cur new = (c', r) -> r <> Ok tt -> c' = cur.
-Proof.
-  intros closed hl cur new c' r G H Hr. rewrite (set_configuration_spec_agreeing _ _ _ _ G) in H.
-  destruct closed; [now injection H as <- _|].
-  destruct (changes_immutable hl cur new); [now injection H as <- _|].
-  rewrite validate_all_spec in H. destruct (servers_valid (servers new)).
-  - injection H as _ <-. congruence.
-  - now injection H as <- _.
-Qed.
-
-(* without any guard: a rejected call leaves everything but the expiry the
-   stored certificates report; their identities (key type, key, x509) stay *)
-Lemma reject_unchanged_upto_expiry : forall closed hl cur new c' r,
-  set_configuration closed hl cur new = (c', r) -> r <> Ok tt ->
-  with_certs c' (certs cur) = cur /\ map cert_id (certs c') = map cert_id (certs cur).
 Proof.
   intros closed hl cur new c' r H Hr. rewrite set_configuration_spec in H.
-  destruct closed; [injection H as <- _; now rewrite with_certs_id|].
-  destruct (changes_identity cur new || changes_certs cur new) eqn:E;
-    [injection H as <- _; now rewrite with_certs_id|].
-  apply orb_false_iff in E as [_ C].
-  assert (A : with_certs (adopt_certs cur new) (certs cur) = cur /\
-              map cert_id (certs (adopt_certs cur new)) = map cert_id (certs cur)).
-  { split; [apply adopt_certs_rest|now apply adopt_certs_ids]. }
-  destruct (changes_late hl cur new); [now injection H as <- _|].
+  destruct closed; [now injection H as <- _|].
+  destruct (changes_immutable hl cur new); [now injection H as <- _|].
   rewrite validate_all_spec in H. destruct (servers_valid (servers new)).
   - injection H as _ <-. congruence.
   - now injection H as <- _.
@@ -302,109 +160,40 @@ Qed.
 Lemma success_effect : forall closed hl cur new c',
   set_configuration closed hl cur new = (c', Ok tt) ->
   closed = false /\ changes_immutable hl cur new = false /\ servers_valid (servers new) = true /\
-  c' = mutable_tail (adopt_certs cur new) new.
+  c' = mutable_tail cur new.
 Proof.
   intros closed hl cur new c' H. rewrite set_configuration_spec in H.
-  rewrite changes_immutable_split.
   destruct closed; [discriminate|].
-  destruct (changes_identity cur new || changes_certs cur new); [discriminate|].
-  destruct (changes_late hl cur new); [discriminate|].
+  destruct (changes_immutable hl cur new); [discriminate|].
   rewrite validate_all_spec in H. destruct (servers_valid (servers new)); [|discriminate].
   injection H as <-. auto.
 Qed.
 
-(* FULL STATEMENT (a successful call keeps ... the certificates) -- false, see
-   immutable_kept_refuted *)
-Lemma immutable_kept_refuted : exists closed hl cur new c',
-  set_configuration closed hl cur new = (c', Ok tt) /\ certs c' <> certs cur /\
-  changes_certs cur new = false.
-Proof.
-  exists false, true, wit_cur, (with_bundle wit_new 0), (with_certs wit_cur [wit_cert 1000]).
-  repeat split; try reflexivity; try discriminate; try (vm_compute; discriminate).
-Qed.
-
-Lemma immutable_kept_partial : forall closed hl cur new c',
-  expiry_agrees (certs cur) (certs new) = true ->
+Lemma immutable_kept : forall closed hl cur new c',
   set_configuration closed hl cur new = (c', Ok tt) ->
   bundle c' = bundle cur /\ rtcpmux c' = rtcpmux cur /\ identity c' = identity cur /\
   certs c' = certs cur /\ pool c' = pool cur /\ semantics c' = semantics cur.
 Proof.
-  intros closed hl cur new c' G H. pose proof H as H0. apply success_effect in H as (_ & C & _ & ->).
-  rewrite changes_immutable_split in C. apply orb_false_iff in C as [C _].
-  apply orb_false_iff in C as [_ C]. rewrite (adopt_certs_id cur new C G).
-  cbn. auto 10.
-Qed.
-
-(* without any guard: everything immutable but the expiry the stored
-   certificates report *)
-Lemma immutable_kept_upto_expiry : forall closed hl cur new c',
-  set_configuration closed hl cur new = (c', Ok tt) ->
-  bundle c' = bundle cur /\ rtcpmux c' = rtcpmux cur /\ identity c' = identity cur /\
-  map cert_id (certs c') = map cert_id (certs cur) /\ pool c' = pool cur /\
-  semantics c' = semantics cur.
-Proof.
-  intros closed hl cur new c' H. apply success_effect in H as (_ & C & _ & ->).
-  rewrite changes_immutable_split in C. apply orb_false_iff in C as [C _].
-  apply orb_false_iff in C as [_ C].
-  destruct (adopt_fields cur new) as (B & R & P & I & S).
-  pose proof (adopt_certs_ids cur new C) as D.
+  intros closed hl cur new c' H. apply success_effect in H as (_ & _ & _ & ->).
   cbn. auto 10.
 Qed.
 
 (* any result: the immutable settings (and the pool size, always) are as before *)
-Lemma immutable_always_upto_expiry : forall closed hl cur new,
-  let c' := fst (set_configuration closed hl cur new) in
-  bundle c' = bundle cur /\ rtcpmux c' = rtcpmux cur /\ identity c' = identity cur /\
-  map cert_id (certs c') = map cert_id (certs cur) /\ pool c' = pool cur /\
-  semantics c' = semantics cur.
-Proof.
-  intros closed hl cur new. cbn zeta.
-  destruct (set_configuration closed hl cur new) as [c' r] eqn:H. cbn [fst].
-  assert (R : r <> Ok tt -> bundle c' = bundle cur /\ rtcpmux c' = rtcpmux cur /\
-     identity c' = identity cur /\ map cert_id (certs c') = map cert_id (certs cur) /\
-     pool c' = pool cur /\ semantics c' = semantics cur).
-  { intro Hr. destruct (reject_unchanged_upto_expiry _ _ _ _ _ _ H Hr) as [A B].
-    rewrite <- A. destruct c'. cbn in *. auto 10. }
-  destruct r as [[]|e|].
-  - eapply immutable_kept_upto_expiry; eauto.
-  - apply R. discriminate.
-  - apply R. discriminate.
-Qed.
-
-Lemma immutable_always_partial : forall closed hl cur new,
-  expiry_agrees (certs cur) (certs new) = true ->
+Lemma immutable_always : forall closed hl cur new,
   let c' := fst (set_configuration closed hl cur new) in
   bundle c' = bundle cur /\ rtcpmux c' = rtcpmux cur /\ identity c' = identity cur /\
   certs c' = certs cur /\ pool c' = pool cur /\ semantics c' = semantics cur.
 Proof.
-  intros closed hl cur new G. cbn zeta.
+  intros closed hl cur new. cbn zeta.
   destruct (set_configuration closed hl cur new) as [c' r] eqn:H. cbn [fst].
   destruct r as [[]|e|].
-  - eapply immutable_kept_partial; eauto.
-  - rewrite (reject_unchanged_partial _ _ _ _ _ _ G H); [auto 10|discriminate].
-  - rewrite (reject_unchanged_partial _ _ _ _ _ _ G H); [auto 10|discriminate].
+  - eapply immutable_kept; eauto.
+  - rewrite (reject_unchanged _ _ _ _ _ _ H); [auto 10|discriminate].
+  - rewrite (reject_unchanged _ _ _ _ _ _ H); [auto 10|discriminate].
 Qed.
 
-(* every attempt is rejected with InvalidModification -- no guard *)
-Lemma change_rejected_class : forall hl cur new,
+Lemma change_rejected : forall hl cur new,
   changes_immutable hl cur new = true ->
-  snd (set_configuration false hl cur new) = Err E_modification.
-Proof.
-  intros hl cur new H. rewrite set_configuration_spec. rewrite changes_immutable_split in H.
-  destruct (changes_identity cur new || changes_certs cur new); auto.
-  cbn [orb] in H. now rewrite H.
-Qed.
-
-Lemma change_rejected_partial : forall hl cur new,
-  expiry_agrees (certs cur) (certs new) = true ->
-  changes_immutable hl cur new = true ->
-  set_configuration false hl cur new = (cur, Err E_modification).
-Proof. intros hl cur new G H. rewrite (set_configuration_spec_agreeing _ _ _ _ G). now rewrite H. Qed.
-
-(* a change of the peer identity or of the certificates themselves is
-   rejected before anything is stored -- no guard *)
-Lemma early_change_rejected : forall hl cur new,
-  changes_identity cur new || changes_certs cur new = true ->
   set_configuration false hl cur new = (cur, Err E_modification).
 Proof. intros hl cur new H. rewrite set_configuration_spec. now rewrite H. Qed.
 
@@ -416,10 +205,8 @@ Lemma error_class : forall closed hl cur new c' e,
    servers_valid (servers new) = false /\ e = E_access).
 Proof.
   intros closed hl cur new c' e H. rewrite set_configuration_spec in H.
-  rewrite changes_immutable_split.
   destruct closed; [left; injection H as _ <-; auto|].
-  destruct (changes_identity cur new || changes_certs cur new); [right; left; injection H as _ <-; auto|].
-  destruct (changes_late hl cur new); [right; left; injection H as _ <-; auto|].
+  destruct (changes_immutable hl cur new); [right; left; injection H as _ <-; auto|].
   rewrite validate_all_spec in H. destruct (servers_valid (servers new)); [discriminate|].
   right. right. injection H as _ <-. auto.
 Qed.
@@ -427,46 +214,15 @@ Qed.
 Lemma never_panics : forall closed hl cur new, snd (set_configuration closed hl cur new) <> Panic.
 Proof.
   intros closed hl cur new. rewrite set_configuration_spec.
-  destruct closed; [discriminate|].
-  destruct (changes_identity cur new || changes_certs cur new); [discriminate|].
-  destruct (changes_late hl cur new); [discriminate|].
+  destruct closed; [discriminate|]. destruct (changes_immutable hl cur new); [discriminate|].
   rewrite validate_all_spec. destruct (servers_valid (servers new)); discriminate.
 Qed.
 
-Lemma servers_atomic_partial : forall hl cur new,
-  expiry_agrees (certs cur) (certs new) = true ->
+Lemma servers_atomic : forall hl cur new,
   changes_immutable hl cur new = false -> servers_valid (servers new) = false ->
   set_configuration false hl cur new = (cur, Err E_access).
 Proof.
-  intros hl cur new G H1 H2. rewrite (set_configuration_spec_agreeing _ _ _ _ G), H1, validate_all_spec.
-  now rewrite H2.
-Qed.
-
-(* no guard: rejected with InvalidAccess, no server stored, nothing but the
-   reported certificate expiry touched *)
-Lemma servers_atomic_upto_expiry : forall hl cur new,
-  changes_immutable hl cur new = false -> servers_valid (servers new) = false ->
-  snd (set_configuration false hl cur new) = Err E_access /\
-  with_certs (fst (set_configuration false hl cur new)) (certs cur) = cur.
-Proof.
-  intros hl cur new H1 H2.
-  destruct (set_configuration false hl cur new) as [c' r] eqn:H. cbn [fst snd].
-  assert (r = Err E_access).
-  { rewrite set_configuration_spec in H. rewrite changes_immutable_split in H1.
-    apply orb_false_iff in H1 as [A B]. rewrite A, B, validate_all_spec, H2 in H.
-    now injection H as _ <-. }
-  subst r. split; auto.
-  apply (reject_unchanged_upto_expiry _ _ _ _ _ _ H). discriminate.
-Qed.
-
-Lemma servers_atomic_refuted : exists hl cur new,
-  changes_immutable hl cur new = false /\ servers_valid (servers new) = false /\
-  set_configuration false hl cur new <> (cur, Err E_access).
-Proof.
-  exists false, wit_cur,
-    (with_tail (with_bundle wit_new 0) 0 false
-       [{| s_id := 1; s_urls := [UBad]; s_user := false; s_cred := CNil; s_credtype := 0 |}]).
-  repeat split; try reflexivity; try discriminate; try (vm_compute; discriminate).
+  intros hl cur new H1 H2. rewrite set_configuration_spec, H1, validate_all_spec. now rewrite H2.
 Qed.
 
 (* a server list is invalid as soon as one server is, wherever it stands *)
@@ -479,60 +235,21 @@ Qed.
 
 (* ---------- histories ---------- *)
 Definition immutable_part (c : config) := (bundle c, rtcpmux c, identity c, certs c, pool c, semantics c).
-Definition immutable_ids (c : config) :=
-  (bundle c, rtcpmux c, identity c, map cert_id (certs c), pool c, semantics c).
 
-Lemma cstep_immutable_ids : forall s o, immutable_ids (conf (fst (cstep s o))) = immutable_ids (conf s).
+Lemma cstep_immutable : forall s o, immutable_part (conf (fst (cstep s o))) = immutable_part (conf s).
 Proof.
   intros s o. destruct o as [new| |]; cbn [cstep].
-  - pose proof (immutable_always_upto_expiry (is_closed s) (has_local_desc s) (conf s) new) as H. cbn zeta in H.
+  - pose proof (immutable_always (is_closed s) (has_local_desc s) (conf s) new) as H. cbn zeta in H.
     destruct (set_configuration (is_closed s) (has_local_desc s) (conf s) new) as [c r].
-    cbn [fst conf] in *. destruct H as (A & B & C & D & E & F). unfold immutable_ids. congruence.
+    cbn [fst conf] in *. destruct H as (A & B & C & D & E & F). unfold immutable_part. congruence.
   - destruct (is_closed s); reflexivity.
   - reflexivity.
 Qed.
 
-Lemma crun_immutable_ids : forall os s, immutable_ids (conf (crun s os)) = immutable_ids (conf s).
+Lemma crun_immutable : forall os s, immutable_part (conf (crun s os)) = immutable_part (conf s).
 Proof.
   unfold crun. induction os as [|o more IH]; intros s; cbn; auto.
-  rewrite IH. apply cstep_immutable_ids.
-Qed.
-
-Lemma expiry_from_agrees : forall f a b,
-  expiry_from f a -> expiry_from f b -> expiry_agrees a b = true.
-Proof.
-  unfold expiry_from, expiry_agrees. induction a as [|x xs IH]; intros [|y ys] A B; cbn; auto.
-  rewrite (A x (or_introl eq_refl)), (B y (or_introl eq_refl)).
-  rewrite IH; [|intros c Hc; apply A; now right|intros c Hc; apply B; now right].
-  destruct (Z.eqb (c_x509 x) (c_x509 y)) eqn:E; cbn; auto.
-  apply Z.eqb_eq in E. rewrite E. now rewrite Z.eqb_refl.
-Qed.
-
-Definition op_expiry_from (f : Z -> Z) (o : cop) : Prop :=
-  match o with SetConf new => expiry_from f (certs new) | _ => True end.
-
-Lemma cstep_immutable_partial : forall f s o,
-  expiry_from f (certs (conf s)) -> op_expiry_from f o ->
-  immutable_part (conf (fst (cstep s o))) = immutable_part (conf s).
-Proof.
-  intros f s o A B. destruct o as [new| |]; cbn [cstep].
-  - pose proof (immutable_always_partial (is_closed s) (has_local_desc s) (conf s) new
-                  (expiry_from_agrees f _ _ A B)) as H. cbn zeta in H.
-    destruct (set_configuration (is_closed s) (has_local_desc s) (conf s) new) as [c r].
-    cbn [fst conf] in *. destruct H as (H1 & H2 & H3 & H4 & H5 & H6). unfold immutable_part. congruence.
-  - destruct (is_closed s); reflexivity.
-  - reflexivity.
-Qed.
-
-Lemma crun_immutable_partial : forall f os s,
-  expiry_from f (certs (conf s)) -> Forall (op_expiry_from f) os ->
-  immutable_part (conf (crun s os)) = immutable_part (conf s).
-Proof.
-  unfold crun. intros f. induction os as [|o more IH]; intros s A B; cbn; auto.
-  inversion B as [|? ? Bo Bm]; subst.
-  pose proof (cstep_immutable_partial f s o A Bo) as E.
-  rewrite IH; auto.
-  unfold immutable_part in E. injection E as _ _ _ E _ _. now rewrite E.
+  rewrite IH. apply cstep_immutable.
 Qed.
 
 (* once closed, every call is rejected with InvalidState and nothing changes *)
@@ -612,11 +329,7 @@ Lemma same_configuration_accepted : forall hl cur,
   forallb comparable (certs cur) = true -> servers_valid (servers cur) = true ->
   set_configuration false hl cur cur = (cur, Ok tt).
 Proof.
-  intros hl cur HC HS.
-  assert (G : expiry_agrees (certs cur) (certs cur) = true).
-  { unfold expiry_agrees. induction (certs cur) as [|x l IH]; cbn; auto.
-    cbn in HC. apply andb_true_iff in HC as [_ HC]. rewrite (IH HC), !Z.eqb_refl. reflexivity. }
-  rewrite (set_configuration_spec_agreeing _ _ _ _ G).
+  intros hl cur HC HS. rewrite set_configuration_spec.
   assert (CI : changes_immutable hl cur cur = false).
   { unfold changes_immutable, changes_identity, changes_certs, changes_bundle, changes_rtcpmux, changes_pool.
     rewrite String.eqb_refl, !Z.eqb_refl, N.eqb_refl. rewrite !andb_false_r. cbn [orb andb negb].
@@ -625,31 +338,30 @@ Proof.
   now destruct always_dc.
 Qed.
 
-Lemma servers_atomic_anywhere_partial : forall hl cur new (a : list server) s b,
-  expiry_agrees (certs cur) (certs new) = true ->
+Lemma servers_atomic_anywhere : forall hl cur new (a : list server) s b,
   changes_immutable hl cur new = false ->
   servers new = (a ++ s :: b)%list -> server_valid s = false ->
   set_configuration false hl cur new = (cur, Err E_access).
 Proof.
-  intros hl cur new a s b G H E V. apply servers_atomic_partial; auto.
+  intros hl cur new a s b H E V. apply servers_atomic; auto.
   rewrite E. now apply servers_valid_app.
 Qed.
 
 (* ---------- certificates: identity is the x509 certificate with its key ---------- *)
 (* naming, at some position, a certificate that Equals can tell from the stored
    one -- another x509 certificate for the same key, the same x509 certificate
-   with another key, anything -- is a change and is rejected, nothing stored *)
+   with another key, anything -- is a change and is rejected *)
 Lemma other_certificate_rejected : forall hl cur new i c n,
   nth_error (certs cur) i = Some c -> nth_error (certs new) i = Some n -> cert_id c <> cert_id n ->
   set_configuration false hl cur new = (cur, Err E_modification).
 Proof.
-  intros hl cur new i c n Hc Hn Hne. apply early_change_rejected.
-  assert (C : changes_certs cur new = true).
+  intros hl cur new i c n Hc Hn Hne. apply change_rejected.
+  unfold changes_immutable. assert (C : changes_certs cur new = true).
   { unfold changes_certs. destruct (certs new) as [|n0 ns] eqn:N.
     - destruct i; discriminate.
     - destruct (list_cert_same (certs cur) (n0 :: ns)) eqn:S; auto.
       exfalso. apply Hne. eapply list_cert_same_nth; eauto. }
-  rewrite C. now rewrite orb_true_r.
+  rewrite C. now rewrite !orb_true_r.
 Qed.
 
 Lemma same_key_other_x509_rejected : forall hl cur new i c n,
